@@ -60,6 +60,9 @@ structure Cfg where
   nilChecked    : Bool           -- drill-down: `cursor == nil || isNilPointer(cursor)` after every token
   apGuarded     : Bool           -- drill-down: `pathPart == "additionalProperties" && c.Value != nil`
   keyedByKind   : Bool           -- `visitedRefs` / `backtrack` are keyed by kind and text (7245059), not by the text alone
+  swallowOnlyEmpty : Bool        -- the sentinel of the chain call is swallowed only `&& resolved.isEmpty()` (3c3716e)
+  internValueGuard : Bool        -- add<Kind>ToSpec leaves a reference without value alone (05c5875)
+  headerStack   : Bool           -- (*Header).Validate keeps the headers in progress in its context (4c7d612)
 
 /-- `var resolved XRef; *resolved = *cursor`: a new Go object with the content of the target wrapper -/
 def Node.copyAs : Node → Nat → Node | .mk _ d k r e ks, i => .mk i d k r e ks
@@ -154,7 +157,8 @@ def finish (cfg : Cfg) (n' : Node) (kind : Kind) (id : Nat) (t : Key) (r : Res) 
   -- `if err == errMUST<kind> { return nil }`: the sentinel of THIS resolver's kind — raised by the resolved
   -- wrapper itself or by any wrapper of the same kind below it — is swallowed: no value, no location, no
   -- unvisit. `resolvePathItemRef` returns every error of its recursive call as it is.
-  | .errMust k s2 => if k == kind && kind != .pathItem then .ok s2 else .errMust k s2
+  -- Since 3c3716e only `&& resolved.isEmpty()`: the resolved wrapper itself is the empty one.
+  | .errMust k s2 => if k == kind && kind != .pathItem && (!cfg.swallowOnlyEmpty || n'.empty) then .ok s2 else .errMust k s2
   | r => r
 
 /-- after the children of a single-file element were walked -/
